@@ -252,6 +252,7 @@ func init() {
 		Doc: "consecutive sibling statements (outside LANE groups) and then/else arms that have the same tree shape and agree on at least 60% of their leaves differ by a one-to-one renaming of identifiers and literals",
 		Run: func(c *core.Ctx) []ob {
 			out := scanClone(c)
+			out = append(out, scanCloneExt(c)...)
 			out = append(out, control(c, "CLONE", scanClone, "(fixEvaluator).Twice")...)
 			for _, o := range core.Floor("CLONE", nil, "sibling pairs", c.Stats["clone_pairs"], 150) {
 				out = append(out, withProps(o, all...))
